@@ -122,7 +122,16 @@ def run(tier):
         if inp["n"] >= 4 and ck.rng.random() < (0.5 if quick else 1.0):
             layer = impl.random_local_layer(inp["n"], ck.rng)
             extra_in.append(dict(inp, codes=impl.remix(impl.apply_gates_codes(layer, inp["codes"]), ck.rng), graph=None, program=inp["program"] + layer))
+    # every graph state in literal graph form (generator v = X_v Z_N(v)): all graphs of n <= 5, a seeded sample (thorough: all) of n = 6, on every connectivity
+    graph_in = []
+    for n in range(2, 7):
+        total = 1 << (n * (n - 1) // 2)
+        gs = range(total) if (n <= 5 or not quick) else sorted({ck.rng.randrange(total) for _ in range(1500)})
+        for g in gs:
+            graph_in.append({"n": n, "codes": impl.graph_gens(n, g), "program": sweep.graph_program(n, g), "graph": g, "src": f"graph {g} in graph form"})
+    ck.cov["graph_form_inputs"] = len(graph_in)
     jobs2 = sweep.expand_jobs(inputs + extra_in, ["prep"] if quick else ["prep", "readout", "compress"], ck.rng, formats=False)
+    jobs2 += sweep.expand_jobs(graph_in, ["prep"], ck.rng, formats=False)
     traces, verdicts = sweep.run_jobs(ck, L, jobs2, "delivered")
     known_keys = {key for (key, *_rest) in nonopt}
     for t, (cl, extra) in zip(traces, verdicts):
